@@ -61,9 +61,13 @@ class P:
     def parse_run(self, c, run):
         out = []
         for rec in run.get("records") or []:
-            line = b64d(rec["line"]).decode()
-            i, k = line.split(":")
-            out.append((int(i), rec["ts"], int(k), b64d(rec["cid"]).decode()))
+            line = b64d(rec["line"]).decode("utf-8", "replace")
+            try:
+                i, k = line.split(":")
+                i, k = int(i), int(k)
+            except ValueError:
+                i, k = 97, -1          # the message is not one that was written: no source owns this record
+            out.append((i, rec["ts"], k, b64d(rec["cid"]).decode("utf-8", "replace")))
         return out
 
     def to_coq(self, c, r):
